@@ -127,6 +127,15 @@ def run(chk: Check):
         r.ev.append({"ev": "chunk", "cfgs": cfgs, "chunk": D.builder_chunk([D.mk(c) for c in cfgs])})
         traces.append(r.trace(kind="chunk"))
 
+    # the schedule handed to set_epochs as a tuple / generator / iterator (its signature takes any iterable)
+    for how in ("tuple", "generator", "iter"):
+        cfgs = [D.cfg_rec(0, 1, 1), D.cfg_rec(1, 6, 2), D.cfg_rec(3, 9, 1), D.cfg_rec(4, 12, 3)]
+        r = D.Recorder()
+        for c in cfgs:
+            r.append(c)
+        r.ev.append({"ev": "chunk", "cfgs": cfgs, "chunk": D.builder_chunk([D.mk(c) for c in cfgs], as_iterable=how)})
+        traces.append(r.trace(kind="chunk"))
+
     def nontrivial(t):
         n_ok = sum(1 for e in t["ev"] if e["ev"] == "append" and e["accepted"])
         return n_ok >= 2 or any(e["ev"] == "stan" and not e["raised"] for e in t["ev"])
